@@ -666,6 +666,15 @@ def scan_package(repo):
         for k, v in ms.calls.items():
             calls["%s:%s" % (f[:-3], k)] = sorted(v)
         funcs += ["%s:%s" % (f[:-3], fi.qual) for fi in ms.funcs]
+    # native modules (.pyx): no Python ast - module-level bindings by a line scan (names only; their state is enumerated
+    # from the live module by the monitor)
+    import re
+    for f in sorted(os.listdir(pkg)):
+        if f.endswith(".pyx"):
+            for ln, line in enumerate(open(os.path.join(pkg, f)).read().split("\n"), 1):
+                m = re.match(r"^(?:cdef\s+[\w\[\]:, ]+?\s+)?([A-Za-z_]\w*)\s*=[^=]", line)
+                if m and not line.startswith(("def ", "cpdef ", "class ", "import ", "from ")):
+                    locations.append({"kind": "module_global", "module": f[:-4], "name": m.group(1), "line": ln, "valkind": "pyx"})
     for i, l in enumerate(locations):
         l["id"] = i
     for i, s in enumerate(sites):
